@@ -28,6 +28,7 @@ import (
 	"github.com/skycoin/skycoin/src/cipher"
 	"github.com/skycoin/skycoin/src/cipher/bip39"
 	"github.com/skycoin/skycoin/src/cipher/bip44"
+	"github.com/skycoin/skycoin/src/cipher/crypto"
 	"github.com/skycoin/skycoin/src/wallet"
 	"github.com/skycoin/skycoin/src/wallet/bip44wallet"
 	"github.com/skycoin/skycoin/src/wallet/collection"
@@ -385,7 +386,7 @@ func runIdx(o *Out, r *Rng, n int, dir string, hist Hist, caseJSON map[string][]
 		} else {
 			g := 1 + r.Intn(3)
 			var bw *bip44wallet.Wallet
-			bw, err = bip44wallet.NewWallet(fn, "c17", mn, pass, wallet.OptionGenerateN(uint64(g)))
+			bw, err = bip44wallet.NewWallet(fn, "c17", mn, pass, wallet.OptionGenerateN(uint64(g)), wallet.OptionCryptoType(crypto.CryptoTypeSha256Xor))
 			initOps = append(initOps, fmt.Sprintf("(IGen 0 %d)", g), "(IGen 1 1)")
 			if err == nil && accounts == 2 {
 				_, err = bw.NewAccount("second")
@@ -438,10 +439,56 @@ func runIdx(o *Out, r *Rng, n int, dir string, hist Hist, caseJSON map[string][]
 			}
 			return l
 		}
-		for k := 2 + r.Intn(6); k > 0; k-- {
-			switch x := r.Intn(10); {
+		// bip44 wallets are also locked and unlocked in between: addresses generated
+		// while locked come from the chain public keys, their secrets are filled in by
+		// Unlock (syncSecrets); after every Unlock all entries must be coherent
+		locked := false
+		ok := true
+		password := []byte("pw-c17")
+		doUnlock := func() error {
+			u, err := cur.Unlock(password)
+			if err != nil {
+				return err
+			}
+			cur = u
+			locked = false
+			cs, err := chains(cur)
+			if err != nil {
+				return err
+			}
+			for _, c := range cs {
+				ok = ok && coherent(c, true)
+			}
+			return nil
+		}
+		nops := 2 + r.Intn(6)
+		if !isXpub {
+			nops += 2
+		}
+		for k := nops; k > 0; k-- {
+			x := r.Intn(10)
+			if !isXpub && r.Chance(25) {
+				x = 10
+			}
+			switch {
+			case x == 10 && !locked:
+				if err := cur.Lock(password); err != nil {
+					return err
+				}
+				locked = true
+				ops = append(ops, "ILock")
+				opNames = append(opNames, "Lock")
+			case x == 10:
+				if err := doUnlock(); err != nil {
+					return err
+				}
+				ops = append(ops, "IUnlock")
+				opNames = append(opNames, "Unlock")
 			case x < 4:
 				j := r.Intn(nchains)
+				if locked && nchains > 1 && r.Bool() {
+					j = 1 + 2*r.Intn(nchains/2) // a change chain, while locked
+				}
 				num := r.Intn(5)
 				if lens()[j]+num > tableLen-8 {
 					num = 0
@@ -491,7 +538,21 @@ func runIdx(o *Out, r *Rng, n int, dir string, hist Hist, caseJSON map[string][]
 			if err := observe(); err != nil {
 				return err
 			}
-			hist.Add(map[bool]string{true: "xpub:", false: "bip44:"}[isXpub] + opNames[len(opNames)-1])
+			lk := ""
+			if locked {
+				lk = "(locked)"
+			}
+			hist.Add(map[bool]string{true: "xpub:", false: "bip44:"}[isXpub] + opNames[len(opNames)-1] + lk)
+		}
+		if locked {
+			if err := doUnlock(); err != nil {
+				return err
+			}
+			ops = append(ops, "IUnlock")
+			if err := observe(); err != nil {
+				return err
+			}
+			hist.Add("bip44:Unlock")
 		}
 		// single shot of the same totals from a fresh wallet; entry coherence; the
 		// xpub wallet on the account's external chain key lists the same addresses
@@ -500,7 +561,6 @@ func runIdx(o *Out, r *Rng, n int, dir string, hist Hist, caseJSON map[string][]
 			return err
 		}
 		var single []string
-		ok := true
 		if isXpub {
 			fresh, err := xpubwallet.NewWallet("c17fresh.wlt", "c17", xpubs[0], wallet.OptionGenerateN(uint64(len(final[0]))))
 			if err != nil {
@@ -511,7 +571,7 @@ func runIdx(o *Out, r *Rng, n int, dir string, hist Hist, caseJSON map[string][]
 				return err
 			}
 			single = append(single, strList(addrsOf(fes)))
-			ok = coherent(final[0], false)
+			ok = ok && coherent(final[0], false)
 		} else {
 			g := len(final[0])
 			fresh, err := bip44wallet.NewWallet("c17fresh.wlt", "c17", mn, pass, wallet.OptionGenerateN(uint64(g)))
